@@ -82,7 +82,7 @@ def throttle[**Args, Result](
             ),
         )
 
-    if function := function:
+    if function is not None:
         return _wrap(function)
 
     else:
